@@ -313,6 +313,9 @@ fn gen_num_val(r: &mut Rng) -> J {
         f64_tok(0.1),
         f64_tok(123456789.125),
         f64_tok(1.0),
+        "-1.6870701997249725e-12".into(),
+        f64_tok(f64::from_bits(0x3FB999999999999A)),
+        f64_tok(5e-324),
     ];
     J::Num(r.pick(&toks).clone())
 }
@@ -619,6 +622,10 @@ fn mutate(r: &mut Rng, doc: &mut Vec<(String, J)>, v: &Value, nvariants: usize) 
 struct DocCase {
     /// the text is the real writer's output for a frame (hand-built value or a line the system logged)
     emitted: bool,
+    /// a frame holding Some(Value::Null) in a skipped-when-None field: rip never builds one (props/C03.json,
+    /// assumptions); serde drops the key on the second write, which is exactly what the model says
+    /// (c03_some_null_skipped_refuted) — compared with the model, not held against the implementation
+    some_null_skipped: bool,
     doc_text: String,
     label: String,
     variant: String,
@@ -729,6 +736,78 @@ fn handmade() -> Vec<(String, Event)> {
     ]
 }
 
+
+/// frames produced by the real provider path: SSE bytes -> SseDecoder -> EventFrameMapper (what session.rs logs
+/// and broadcasts for every provider event)
+fn provider_frames(r: &mut Rng) -> Vec<(String, Event)> {
+    use rip_provider_openresponses::{EventFrameMapper, SseDecoder};
+    let mut payloads: Vec<(String, String)> = vec![
+        ("text delta".into(), r#"{"type":"response.output_text.delta","sequence_number":1,"item_id":"i","output_index":0,"content_index":0,"delta":"h\u00e9llo \ud83d\ude00"}"#.into()),
+        ("done".into(), "[DONE]".into()),
+        ("invalid json".into(), "{not json".into()),
+        ("float payload".into(), r#"{"type":"x","v":[-1.6870701997249725e-12,0.1,1e300,5e-324,1.7976931348623157e308,123456789.12345679]}"#.into()),
+        ("null payload".into(), "null".into()),
+        ("scalar payload".into(), "18446744073709551615".into()),
+    ];
+    for d in [60usize, 125, 126, 127, 128, 129] {
+        payloads.push((format!("payload nested {d} arrays deep"), format!("{}1{}", "[".repeat(d), "]".repeat(d))));
+    }
+    for _ in 0..6 {
+        let bits = rand_f64_bits(r);
+        payloads.push(("random float payload".into(), format!("{{\"type\":\"x\",\"f\":{}}}", f64_tok(f64::from_bits(bits)))));
+    }
+    let mut out = vec![];
+    let mut dec = SseDecoder::new();
+    let mut map = EventFrameMapper::new("provider-session");
+    for (label, data) in payloads {
+        let chunk = format!("event: e\ndata: {data}\n\n");
+        for parsed in dec.push(&chunk) {
+            for ev in map.map(&parsed) {
+                out.push((format!("provider path: {label}"), ev));
+            }
+        }
+    }
+    out
+}
+
+fn rand_f64_bits(r: &mut Rng) -> u64 {
+    let mant = r.next() & ((1u64 << 52) - 1);
+    let exp = match r.below(4) {
+        0 => 1 + r.below(2046),
+        _ => 1023 - 60 + r.below(120),
+    };
+    (r.below(2) << 63) | (exp << 52) | mant
+}
+
+/// numbers inside payload values: the token the writer prints for a float must read back to the same float
+/// (the model treats number tokens as opaque atoms; this is the assumption it rests on)
+fn float_oracle(r: &mut Rng, n: usize, res: &mut RunResult) {
+    let mut toks: Vec<String> = vec!["-1.6870701997249725e-12".into(), "5e-324".into(), "1.7976931348623157e308".into(), "0.1".into(), "2.2250738585072014e-308".into()];
+    for _ in 0..n {
+        toks.push(f64_tok(f64::from_bits(rand_f64_bits(r))));
+    }
+    let mut bad = 0u64;
+    for (i, tok) in toks.iter().enumerate() {
+        res.oracle_checks += 1;
+        let back = serde_json::from_str::<Value>(tok).ok().map(|v| serde_json::to_string(&v).unwrap_or_default());
+        let canonical = tok.parse::<f64>().ok().map(f64_tok);
+        // only tokens in the writer's own (shortest round-trip) form are held to identity
+        if canonical.as_deref() == Some(tok.as_str()) && back.as_deref() != Some(tok.as_str()) {
+            bad += 1;
+            if bad <= 2 {
+                res.oracle_violations.push(OracleViolation {
+                    case_id: -(1000 + i as i64),
+                    what: format!("a float the writer printed as {tok} reads back and prints as {}: a frame holding it replays to a different value than the one broadcast live", back.unwrap_or_else(|| "<error>".into())),
+                    class: "float_not_roundtripping".into(),
+                    replay: json!({"float_token": tok, "how": "serde_json::to_string(&serde_json::from_str::<Value>(tok))"}),
+                });
+            }
+        }
+    }
+    res.bump_by("float.tokens_checked", toks.len() as u64);
+    res.bump_by("float.not_roundtripping", bad);
+}
+
 fn deep_frames() -> Vec<(String, Event)> {
     let mut out = vec![];
     for d in [100usize, 124, 125, 126, 127, 128, 200] {
@@ -744,7 +823,7 @@ fn deep_frames() -> Vec<(String, Event)> {
 fn main() {
     let a = parse_args();
     let mut res = RunResult::new("C03", &a);
-    res.rule = "(a) one case = one JSON document for serde_json::from_str::<Event>, generated from the extracted schema (every variant x {all fields, minimal, random presence, explicit nulls} x aliases x unicode/large/nested/number corner values) plus one of 15 malformed/unusual variations, plus hand-built frames holding Some(Null) and deeply nested payloads, plus real log lines produced by the histories; the model decodes/re-encodes the same document inside Coq. (b) one history = 5-40 continuity operations and provider-less session runs on the real store; four views compared frame for frame. non-trivial = accepted documents with at least one optional/vector/Value field or a variation; distinct by document text".into();
+    res.rule = "(a) one case = one JSON document for serde_json::from_str::<Event>, generated from the extracted schema (every variant x {all fields, minimal, random presence, explicit nulls} x aliases x unicode/large/nested/number corner values) plus one of 15 malformed/unusual variations, plus hand-built frames holding Some(Null) and deeply nested payloads, plus frames produced by the real provider path (SSE bytes -> SseDecoder -> EventFrameMapper, incl. float and deeply nested payloads), plus real log lines produced by the histories; the model decodes/re-encodes the same document inside Coq. (b) one history = 5-40 continuity operations and provider-less session runs on the real store; four views compared frame for frame. non-trivial = accepted documents with at least one optional/vector/Value field or a variation; distinct by document text".into();
     let schema_path = a.extra.get("schema").cloned().unwrap_or_else(|| "coq/Gen/event_schema.json".to_string());
     let schema: Value = serde_json::from_str(&std::fs::read_to_string(&schema_path).unwrap_or_else(|e| panic!("cannot read {schema_path}: {e}"))).expect("schema json");
     let variants: Vec<Value> = schema["variants"].as_array().cloned().unwrap_or_default();
@@ -770,10 +849,15 @@ fn main() {
     // ---- (a) documents
     let mut cases: Vec<DocCase> = vec![];
     for (label, ev) in handmade().into_iter().chain(deep_frames()) {
-        cases.push(DocCase { emitted: true, doc_text: serde_json::to_string(&ev).unwrap(), label: format!("handmade: {label}"), variant: "handmade".into(), wellformed: true });
+        let sns = label.contains("[skipped-if-none field]");
+        cases.push(DocCase { emitted: true, some_null_skipped: sns, doc_text: serde_json::to_string(&ev).unwrap(), label: format!("handmade: {label}"), variant: "handmade".into(), wellformed: true });
     }
+    for (label, ev) in provider_frames(&mut r) {
+        cases.push(DocCase { emitted: true, some_null_skipped: false, doc_text: serde_json::to_string(&ev).unwrap(), label, variant: "provider".into(), wellformed: true });
+    }
+    float_oracle(&mut r, if thorough { 20_000 } else { 2_000 }, &mut res);
     for line in &h.emitted_lines {
-        cases.push(DocCase { emitted: true, doc_text: line.clone(), label: "real log line".into(), variant: "real".into(), wellformed: true });
+        cases.push(DocCase { emitted: true, some_null_skipped: false, doc_text: line.clone(), label: "real log line".into(), variant: "real".into(), wellformed: true });
     }
     for v in &variants {
         let kind = v["kind"].as_str().unwrap_or("session").to_string();
@@ -799,12 +883,12 @@ fn main() {
             }
             let mut text = String::new();
             print_json(&J::Obj(doc), &mut text);
-            cases.push(DocCase { emitted: false, doc_text: text, label, variant: v["name"].as_str().unwrap_or("?").to_string(), wellformed: !malformed });
+            cases.push(DocCase { emitted: false, some_null_skipped: false, doc_text: text, label, variant: v["name"].as_str().unwrap_or("?").to_string(), wellformed: !malformed });
         }
     }
     // top-level shapes that are not objects
     for t in ["[]", "null", "\"session_started\"", "{}", "[\"e\",\"s\",0,0]"] {
-        cases.push(DocCase { emitted: false, doc_text: t.to_string(), label: "not_a_frame".into(), variant: "none".into(), wellformed: false });
+        cases.push(DocCase { emitted: false, some_null_skipped: false, doc_text: t.to_string(), label: "not_a_frame".into(), variant: "none".into(), wellformed: false });
     }
 
     let mut accepted = 0u64;
@@ -847,7 +931,9 @@ fn main() {
                 if c.emitted && o.ok && o.violation.is_none() {
                     // the document IS a written frame: reading and writing it again must reproduce it
                     let t1 = o.t1.clone().unwrap_or_default();
-                    if t1 != c.doc_text {
+                    if t1 != c.doc_text && c.some_null_skipped && some_null_dropped(&c.doc_text, &t1) {
+                        res.bump("handmade.some_null_in_skipped_option_vanishes_as_modelled");
+                    } else if t1 != c.doc_text {
                         let cls = if some_null_dropped(&c.doc_text, &t1) { "some_null_in_skipped_option_vanishes" } else { "roundtrip_alters_frame" };
                         res.oracle_violations.push(OracleViolation { case_id: i as i64, what: format!("write/read/write changes the frame: written {} read back and written again {}", clip(&c.doc_text), clip(&t1)), class: cls.into(), replay: replay.clone() });
                     }
